@@ -105,6 +105,11 @@ class Sim:
                              self.nruns,
                              jobs=self.cfg.get('jobs', 1))
             self.count('ninja.schedule_events', len(r.schedule))
+            if len(r.schedule) > 2:
+                import hashlib
+                self.schedules = getattr(self, 'schedules', set())
+                self.schedules.add(hashlib.sha256(
+                    repr(r.schedule).encode()).hexdigest()[:12])
             return r
         raise HarnessError('no executor for backend ' + self.backend)
 
